@@ -1,5 +1,6 @@
 import CrdtModel.Audit.Tool
 import CrdtModel.Props.C05
 import CrdtModel.Props.C05Nested
+import CrdtModel.Props.C05NestedOrswot
 #audit_ns Crdt.C05
 #audit_ns Crdt.CMap
